@@ -69,6 +69,12 @@ def frame_case(kind, n):
     return {"flush": "frame=0000", "delim": "frame=0001", "respend": "frame=0002"}.get(kind, "frame=" + kind)
 
 
+def hdr_case(h):
+    """Name of the frame a read_pkt_line / eof operation met, from the value of its length prefix."""
+    return {-2: "short stream", -1: "frame=invalid", 0: "frame=0000", 1: "frame=0001", 2: "frame=0002", 3: "frame=0003",
+            4: "frame=0004"}.get(h, "frame=data")
+
+
 def first_nonhex(pre: bytes):
     for c in pre:
         if c not in b"0123456789abcdefABCDEF":
@@ -279,6 +285,40 @@ def check_sideband(rep, c):
     return 1
 
 
+def check_sbmix(rep, c):
+    """c = {msgs: [[ch, [data]]], bytes, cat: [[..], [..], [..]]}"""
+    from dulwich.client import _read_side_band64k_data
+    from dulwich.protocol import Protocol
+    msgs = [(ch, b(d)) for (ch, d) in c["msgs"]]
+    ref, cat = b(c["bytes"]), [b(x) for x in c["cat"]]
+    rp = {"kind": "sbmix", "case": c}
+    w = []
+    pr = Protocol(None, w.append)
+
+    def enc():
+        for ch, d in msgs:
+            pr.write_sideband(ch, d)
+        pr.write_pkt_line(None)
+    o = outcome(enc)
+    wire = b"".join(w)
+    rep.say(f"messages {msgs}: wire {wire!r}; reference {ref!r}")
+    if o[0] != "ok" or wire != ref:
+        rep.v(f"{P}:Protocol.write_sideband", "RoundTrip", f"small messages -> {okind(o) if o[0] != 'ok' else 'bytes differ from the reference'}",
+              f"messages {msgs}: wrote {wire!r} ({o[0]}), reference {ref!r}", rp)
+        return 1
+    got = {1: b"", 2: b"", 3: b""}
+
+    def dec():
+        for chan, data in _read_side_band64k_data(rprotocol(Wire(wire)).read_pkt_seq()):
+            got[chan] += data
+    o = outcome(dec)
+    rep.say(f"demultiplexed: {got} ({o[0]}); reference {cat}")
+    if o[0] != "ok" or [got[1], got[2], got[3]] != cat:
+        rep.v("dulwich/client.py:_read_side_band64k_data", "TotalDecoder" if o[0] == "crash" else "RoundTrip",
+              f"three channels -> {okind(o) if o[0] != 'ok' else 'wrong channel data'}", f"messages {msgs}: demultiplexed {got} ({o}), expected {cat}", rp)
+    return 2
+
+
 # --------------------------------------------------------------------------- PktLine: short item sequences
 def check_frames(rep, c):
     """c = {items: [[kind, [payload]]], bytes: [...]}"""
@@ -475,12 +515,14 @@ def check_rp_leaf(rep, c):
     p = rprotocol(w, rbufsize=c["rbuf"])
     rp = {"kind": "rp", "case": c}
     ops = [e for e in hist if e[0] != "rx"]
-    last_line = None
+    last_line = buffered_line = None
     n = 0
+    cons = 0          # bytes of the stream the client has taken off the wire (raw reads and whole frames)
     for i in range(0, len(ops) - 1, 2):
         op, ret = ops[i], ops[i + 1]
         t, size = op[1], op[2]
         est, ek, ed, ebuf = ret[1], ret[4], b(ret[5]), ret[2]
+        cons0 = cons
         if t == "read":
             o, name = outcome(p.read, size), "ReceivableProtocol.read"
         elif t == "recv":
@@ -501,22 +543,36 @@ def check_rp_leaf(rep, c):
             last_line = o[1]
         site = f"{P}:{name}"
         desc = f"stream {stream!r} chunks {[k for (_, k) in strict]} op#{i // 2 + 1} {t}({size or ''})"
+        fcase = hdr_case(op[3]) if t in ("pkt", "eof") else f"{t}{size or ''} exp={est}/{ek}"
         if o[0] == "crash":
-            case = frame_case("data", len(ed) + 4) if ek == "data" else f"{t} exp={est}/{ek}"
-            rep.v(site, "TotalDecoder", f"{case} -> {okind(o)}", f"{desc}: {o[1]}; the reference says {want}", rp)
+            rep.v(site, "TotalDecoder", f"{fcase} -> {okind(o)}", f"{desc}: {o[1]}; the reference says {want}", rp)
             return n
+        if t in ("read", "recv") and o[0] == "ok":
+            cons += len(o[1])
+        elif t in ("pkt", "eof") and o[0] == "ok" and not (t == "eof" and o[1]) and buffered_line is None:
+            cons += max(op[3], 4)
+        if t == "pkt":
+            buffered_line = None
+        elif (t == "eof" and o == ("ok", False)) or t == "unread":
+            buffered_line = True
         if o[:1] == want[:1] and (o[0] != "ok" or o[1] == want[1]):
             if buffered(p) is not None and buffered(p) != ebuf and est == "ok":
                 rep.drift(f"{desc}: {buffered(p)} bytes buffered, model {ebuf}")
             continue
-        if est == "proterr" and o[0] == "ok":
-            hdr = stream[:0]
-            rep.v(site, "TotalDecoder", f"{t}: accepts what is not a frame", f"{desc}: returned {o[1]!r}, the reference says GitProtocolError{hdr.decode()}", rp)
+        if t == "recv" and o[0] == "ok" and est == "ok":
+            # how much recv() returns depends on what _recv delivered: judged by the statement, not by the model's run
+            r = o[1]
+            if r == stream[cons0:cons0 + len(r)] and (1 <= len(r) <= size or (not r and cons0 >= len(stream))):
+                rep.drift(f"{desc}: returned {len(r)} bytes, model {len(ed)} (both are the next bytes of the stream)")
+                continue
+        if est == "proterr" and o == ("ok", None) and fcase == "frame=0002":
+            rep.drift(f"{desc}: response-end packet now read as None (model: GitProtocolError)")
+        elif est == "proterr" and o[0] == "ok":
+            rep.v(site, "TotalDecoder", f"{t}: accepts what is not a frame ({fcase})", f"{desc}: returned {o[1]!r}, the reference says GitProtocolError", rp)
         elif est in ("hangup", "proterr") and o[0] in ("hangup", "proterr"):
             rep.drift(f"{desc}: {o[0]} where the model says {est}")
         else:
-            case = (frame_case("data", len(ed) + 4) if ek == "data" else f"{t}{size or ''} exp={est}/{ek}")
-            rep.v(site, "RoundTrip", f"{case} -> {okind(o) if o[0] != 'ok' else 'wrong result'}",
+            rep.v(site, "RoundTrip", f"{fcase} -> {okind(o) if o[0] != 'ok' else 'wrong result'}",
                   f"{desc}: got {o}, the reference says {want}", rp)
         return n
     for s in w.shape[:1]:
@@ -673,7 +729,7 @@ def check_pack_leaf(rep, c):
     return n
 
 
-CHECKS = {"prefix": check_prefix, "enc": check_enc, "sideband": check_sideband, "frames": check_frames, "caps": check_caps,
+CHECKS = {"prefix": check_prefix, "enc": check_enc, "sideband": check_sideband, "sbmix": check_sbmix, "frames": check_frames, "caps": check_caps,
           "want": check_want, "rp": check_rp_leaf, "parser": check_parser_leaf, "pipeline": check_pipeline_leaf,
           "pack": check_pack_leaf}
 
@@ -711,11 +767,6 @@ def _git_repo():
 
 
 # --------------------------------------------------------------------------- parts
-def load_cases(fam, path):
-    for st in tlc.load_state_dump(path):
-        yield st
-
-
 def part_pktline(ctx, rep, jobs):
     dumpdir = jobs.dir
     # ---- prefixes
@@ -763,7 +814,7 @@ def part_pktline(ctx, rep, jobs):
             ctx.nontrivial(base + i)
         ctx.log(f"prefix-{fam}: {n} prefixes, {ncmp} comparisons with the real decoders")
     # ---- the other families
-    for fam, key in (("enc", "enc"), ("sideband", "sideband"), ("frames", "frames"), ("caps", "caps"), ("want", "want")):
+    for fam, key in (("enc", "enc"), ("sideband", "sideband"), ("sbmix", "sbmix"), ("frames", "frames"), ("caps", "caps"), ("want", "want")):
         res = jobs.get(f"PktLine[{fam}]")
         ctx.add_tlc(f"PktLine family {fam} (reference checked: Theorems)", res)
         n = ncmp = 0
@@ -773,6 +824,8 @@ def part_pktline(ctx, rep, jobs):
                 c = {"L": case, **exp}
             elif fam == "sideband":
                 c = {**case, **exp}
+            elif fam == "sbmix":
+                c = {"msgs": [[m["ch"], m["d"]] for m in case], "bytes": exp["bytes"], "cat": exp["cat"]}
             elif fam == "frames":
                 c = {"items": [[it["k"], it["p"]] for it in case], "bytes": exp["bytes"]}
             elif fam == "caps":
@@ -849,7 +902,7 @@ def S(x):
 def submit_all(ctx, jobs):
     q = ctx.quick
     # PktLine families (initial states = cases; dumped)
-    for fam in (["hex", "classq", "short"] if q else ["hex", "classt", "short"]) + ["enc", "sideband", "frames", "caps", "want"]:
+    for fam in (["hex", "classq", "short"] if q else ["hex", "classt", "short"]) + ["enc", "sideband", "sbmix", "frames", "caps", "want"]:
         jobs.submit(f"PktLine[{fam}]", "PktLine.tla", f"PktLine_{fam}.cfg", dump_states=os.path.join(jobs.dir, fam),
                     workers=2 if fam in ("classt", "classq", "hex") else 1)
     RDI = ["TotalDecoder", "OpExact", "Conservation", "BufferBound"]
